@@ -42,7 +42,7 @@ let s_cipher g obs =
   let model = hex_of_bytes f1.frm ^ " " ^ hex_of_bytes f2.frm ^ " 1" in
   let verdict =
     match String.split_on_char ' ' obs with
-    | [_; twice; same] -> if twice <> g "frm" then "bad:involution" else if same <> "1" then "bad:other-fields" else "ok"
+    | [_; twice; same] -> if twice <> g "frm" then "bad:involution" else if same <> "1" then "bad:other-fields-or-the-callers-bytes-changed" else "ok"
     | _ -> "bad:shape" in
   (model, verdict)
 
@@ -397,7 +397,19 @@ let s_sched which g obs =
   end else
   if g "kind" = "window2" then begin
     let (model, pre, _post) = Hist.run_window2 g obs in
-    (model, Judge.judge_window2 obs pre)
+    let v = Judge.judge_window2 obs pre in
+    (* bursts: the application is sent one event per device - each device's uplink once, nobody's twice *)
+    let v = if v = "ok" && (try g "pubs" = "1" with _ -> false) then
+        (match Judge.split_obs obs with
+         | Some (_, ps, _) ->
+           let euis = List.filter_map (fun pstr -> match String.split_on_char ':' pstr with _ :: eui :: _ -> Some eui | _ -> None) ps in
+           let rows = List.filter_map (fun (_, st) -> st.ds_row) pre.s_tab in
+           if List.length (List.sort_uniq compare euis) <> List.length euis then "bad:burst-one-uplink-published-twice"
+           else if List.exists (fun r -> not (List.mem (Util.hex_of_n r.d_eui) euis)) rows then "bad:burst-an-uplink-was-not-published-to-its-application"
+           else "ok"
+         | None -> v)
+      else v in
+    (model, v)
   end else
   let (model, pre, _post, eui) = Hist.run_sched g obs in
   (model, Judge.judge_sched which g obs pre eui)
